@@ -494,6 +494,29 @@ pub fn cmd_tamper(args: &[String]) {
             idx += 1;
             if idx % stride != first { continue; }
             rep.case(&format!("stream|{}|{}", mlen, adl));
+            // a state object that has been used for another stream and is initialised again is the state of a fresh one:
+            // nothing of the old key, nonce or counter survives (else a header that differs from the genuine one by the
+            // residue would be accepted, and the genuine one rejected)
+            {
+                let mut used = cs::State::new();
+                let (k0, h0): ([u8; 32], [u8; 24]) = (rng.arr(), rng.arr());
+                cs::crypto_secretstream_xchacha20poly1305_init_pull(&mut used, &h0, &k0);
+                let mut junk = vec![0u8; 3]; let mut jt = 0u8;
+                let _ = cs::crypto_secretstream_xchacha20poly1305_pull(&mut used, &mut junk, &mut jt, &rng.bytes(20), None);
+                if mlen % 2 == 0 { cs::crypto_secretstream_xchacha20poly1305_rekey(&mut used); }
+                let mut again = used.clone();
+                cs::crypto_secretstream_xchacha20poly1305_init_pull(&mut again, &header, &key);
+                let mut fresh = cs::State::new();
+                cs::crypto_secretstream_xchacha20poly1305_init_pull(&mut fresh, &header, &key);
+                rep.evaluations += 2;
+                if again != fresh { rep.fail("C02 classic stream: init_pull on a used state differs from init_pull on a fresh state", json!({"mlen": mlen})); }
+                let mut again2 = used.clone();
+                let mut hp = [0u8; 24];
+                cs::crypto_secretstream_xchacha20poly1305_init_push(&mut again2, &mut hp, &key);
+                let mut fresh2 = cs::State::new();
+                cs::crypto_secretstream_xchacha20poly1305_init_pull(&mut fresh2, &hp, &key);
+                if again2 != fresh2 { rep.fail("C02 classic stream: init_push on a used state differs from a fresh state with the same header", json!({"mlen": mlen})); }
+            }
             // libsodium produces the authentic ciphertext, after `nprev` earlier messages
             let (_, mut spush) = init_pair(&key, &header, 1);
             let mut prevs = vec![];
